@@ -468,7 +468,7 @@ class Oracle:
             if m[3]:
                 new["ub"] = m[3]
             if m[4]:
-                new["exp"] = m[4]
+                new["exp"] = "" if m[4] == "a0" else m[4]      # the epoch itself is "never expires"
 
         def commit():
             self.st[k] = new
